@@ -13,6 +13,9 @@ NOTE_PARTIAL = ("the theorems in coq/fs/%s.v are about named mechanisms of the l
                 "proved lemmas + trace-exact correspondence + spec oracle on the implementation")
 
 PROOF_LEVEL = {
+    "C03": "C03_history / C03_after_every_call / C03_sound_after_history are theorems about the layer-B model for every history of API calls (all 26 operations, every outcome incl. refusals, DiskFull and NotEnoughSpace half-way failures): the global invariant fs_inv - directory tree over the raw disk, unique names, clean tail after the end marker, dot entries, chains in range / acyclic / end-marked / never through free-reserved-bad entries / pairwise disjoint / long enough for the size, pending chains of open files - holds after every call. Scope stated in the theorems: one mounted volume, no device faults, names outside the recorded class D29, fewer than 2^32 handle generations. The tie to the crate is the trace-exact correspondence; the extracted decider fs_inv_b (sound: fs_inv_b_sound) and the independent python checker both run on the implementation's images",
+    "C04": "C04_history is a theorem about the layer-B model for every history of API calls: the complete device-write list lies in the regions of the volume (FAT copies, FAT16 root region, data area, FAT32 information sector; C04_regions_not_outside: never MBR, boot sector, other partition, past the last cluster); C04_mount_layout / C04_open_volume_layout derive the region map from the checks of the mount code; per-call byte frames (slot, FAT entry, high nibble, info-sector fields, data range) are the C04_*_frame theorems. Recorded finding: the partition size is not compared with the BPB total (D38)",
+    "C05": "C05_history (after any history of API calls with no file left open, in-use clusters = clusters on the chains of the live tree), C05_used_is_tree_and_pending (with open files: plus their pending chains), C05_delete_frees, C05_capacity (exactly free_entries allocations succeed, then NotEnoughSpace with nothing changed), C05_fill_free_refill for every number of cycles, and mgr_write_spec (Ok / DiskFull with exactly the stored prefix readable / NotEnoughSpace) are theorems about the layer-B model for all inputs",
     "C06": "C06_iterate / C06_find / C06_find_listed / C06_open_dir are complete theorems about the layer-B model: for every directory contents, every chain (FAT16 root, FAT16/FAT32 chains) and every state with a working device and a coherent cache, the listing is exactly the valid slots before the end marker in on-disk order, lookup is the first match, open_dir succeeds exactly for listed directory entries and designates the entry's cluster (0 -> root, \".\" -> the same directory)",
     "C07": "the decision tables of open_file_in_dir (six modes x missing/file/read-only/directory/already-open/dot names), delete_file_in_dir, make_dir_in_dir, open_dir and write on a read-only handle are theorems about the layer-B model for every state in which the handles resolve; every refusal leaves the state of the lookup (reads only)",
     "C08": "handle freshness inside the 2^32 window (with its refutation beyond, known finding), stale-handle rejection without effect for every call (open_root_dir refuted: known finding), limits as an invariant of every op with the matching errors, volume rules, closing frees exactly one slot, truthful open-handle query, LockError without any effect for every result-returning op while the lock is held - all theorems about the layer-B model for all states and ops",
